@@ -432,6 +432,92 @@ def pointer_chain(rng, depth, terminator="root"):
     return bytes(bld.b)
 
 
+def split_labels(rng, total, style):
+    """label lengths l_1..l_k (1..63) with sum(l_i + 1) == total"""
+    out = []
+    rest = total
+    while rest > 0:
+        hi = min(63, rest - 1)
+        if style == "max":
+            n = hi
+        elif style == "half" and rest == total:
+            n = min(63, max(1, (total // 2 - 1) % 64 or 31))
+            n = min(n, hi)
+        else:
+            n = rng.randrange(1, hi + 1)
+        if rest - 1 - n == 1:           # a remainder of 1 cannot hold a label
+            n = n - 1 if n > 1 else n + 1
+            if n > hi:
+                n = hi - 1
+        out.append(n)
+        rest -= n + 1
+    return out
+
+
+def exact_fill(rng, plen, position, pointee, first_len, pool, style):
+    """A name whose labels written before its final compression pointer expand to exactly `plen`
+    characters (labels and dots; 256 fills the target field exactly), followed by a pointer to
+      pointee 0: a root octet, 1: a plain name, 2..4: a chain  label(s)+pointer -> ... of depth 1..3
+    (the label of the outermost chain element is `first_len` long, the others 1..20).
+    position: "target" (SRV RDATA), "owner" (owner name of an SRV answer), "question" (last question).
+    pool: where the pointee lives: "questions" (earlier questions) or "answers" (targets of earlier SRV answers)."""
+    b = bytearray(12)
+    b[2], b[3] = 0x81, 0x80          # id 0: octet 0 is a root octet a pointer can use
+    qd = an = 0
+
+    def lab(n):
+        return bytes([n]) + bytes(rng.choice(HOSTCH) for _ in range(n))
+
+    def ptr(off):
+        return bytes([0xC0 | (off >> 8), off & 255])
+
+    def question(name):
+        nonlocal qd
+        off = len(b)
+        b.extend(name + T_SRV.to_bytes(2, "big") + C_IN.to_bytes(2, "big"))
+        qd += 1
+        return off
+
+    def srv(owner, target, prio=None):
+        nonlocal an
+        b.extend(owner + T_SRV.to_bytes(2, "big") + C_IN.to_bytes(2, "big") + b"\0\0\0\x3c")
+        rd = (rng.randrange(3) if prio is None else prio).to_bytes(2, "big") + rng.randrange(3).to_bytes(2, "big") + (5222).to_bytes(2, "big")
+        b.extend((len(rd) + len(target)).to_bytes(2, "big") + rd)
+        off = len(b)
+        b.extend(target)
+        an += 1
+        return off
+
+    if position == "question":
+        pool = "questions"                                    # sections cannot be interleaved
+    qoff = question(lab(3) + lab(7) + lab(3) + b"\0")      # q: xxx.example.org-like plain name at offset 12
+    root_off = qoff + 4 + 8 + 4                               # its root octet
+    place = (lambda name: question(name)) if pool == "questions" else (lambda name: srv(ptr(qoff), name))
+    # pointee
+    if pointee == 0:
+        dest = rng.choice([0, root_off])
+    elif pointee == 1:
+        dest = place(lab(first_len) + lab(rng.randrange(1, 21)) + b"\0") if rng.random() < 0.5 else qoff
+    else:
+        dest = rng.choice([0, root_off, qoff, qoff + 4])
+        for d in range(pointee - 1):
+            n = first_len if d == pointee - 2 else rng.randrange(1, 21)
+            extra = lab(rng.randrange(1, 21)) if rng.random() < 0.3 else b""
+            dest = place(lab(n) + extra + ptr(dest))
+    name = b"".join(lab(n) for n in split_labels(rng, plen, style)) + ptr(dest)
+    if position == "question":
+        question(name)
+        srv(ptr(qoff), lab(2) + ptr(qoff + 4))
+    elif position == "owner":
+        srv(name, lab(2) + ptr(qoff + 4))
+    else:
+        srv(ptr(qoff), name)
+    if rng.random() < 0.5:
+        srv(ptr(qoff), lab(4) + ptr(qoff + 4))              # a following record keeps the list linked
+    b[4:8] = qd.to_bytes(2, "big") + an.to_bytes(2, "big")
+    return bytes(b)
+
+
 def many_records(rng, n):
     bld = Builder(rng)
     bld.name([b"_xmpp-client", b"_tcp", b"example", b"org"], "plain")
@@ -520,6 +606,18 @@ def gen_cases(chk):
             for _ in range(rng.choice([1, 2, 3, 8])):
                 m[rng.randrange(len(m))] = rng.randrange(256)
             add(m, "corrupt-random-bytes")
+    # expansion exactly fills the target field: the labels before the final pointer are 250..260 characters long
+    for plen in range(250, 261):
+        for position in ("target", "owner", "question"):
+            for pool in ("questions", "answers"):
+                for pointee in (0, 1):
+                    for style in ("max", "random"):
+                        add(exact_fill(rng, plen, position, pointee, rng.randrange(1, 21), pool, style), "exact-fill-plain")
+                for pointee in (2, 3, 4):
+                    lens = range(1, 21) if (thorough or (position == "target" and 253 <= plen <= 258)) else (rng.randrange(1, 10), rng.randrange(10, 21))
+                    for first_len in lens:
+                        add(exact_fill(rng, plen, position, pointee, first_len, pool, rng.choice(["max", "random", "half"])),
+                            "exact-fill-chain%d" % (pointee - 1))
     # hand-made boundary cases
     hdr = bytes([0, 0, 0x81, 0x80])
     for qd in (0, 1, 2, 65535):
@@ -596,14 +694,27 @@ def expected_fingerprint(text):
         py = body.replace(">=?", ">=").replace("<=?", "<=").replace(">?", ">").replace("<?", "<").replace("=?", "==")
         py = py.replace("negb", "not").replace("||", " or ").replace("&&", " and ")
         return eval("lambda %s: (%s)" % (args, py))
+    def zfn(name, args):
+        body = re.search(r"Definition %s \([^)]*\) : Z :=\s*if (.*?) then (.*?) else (.*?)\.\n" % name, text, re.S)
+        c = body.group(1).replace(">=?", ">=").replace("<=?", "<=").replace(">?", ">").replace("<?", "<").replace("=?", "==")
+        return eval("lambda %s: ((%s) if (%s) else (%s))" % (args, body.group(2), c, body.group(3)))
     bit = lambda b: "1" if b else "0"
     ovfcmp = fn("ovf_check", "ptr, len")
     ptr = fn("pointer_guard", "pointer, buf_offset")
     swap = fn("srv_swap", "cp, cw, np, nw")
-    return "consts %s ovf=%s ovfcmp=%s ptr=%s swap=%s" % (
-        ",".join(consts[k] for k in CONST_ORDER), ovf,
-        "".join(bit(ovfcmp(a, 5)) for a in (4, 5, 6)), "".join(bit(ptr(a, 5)) for a in (4, 5, 6)),
-        "".join(bit(swap(cp, cw, np_, nw)) for cp in (1, 2) for cw in (1, 2) for np_ in (1, 2) for nw in (1, 2)))
+    idx = fn("idx_guard", "i, buf_len")
+    lend = fn("label_end_guard", "last, buf_len")
+    full = fn("name_full", "name_len, name_max")
+    room = zfn("room_left", "name_max, name_len")
+    copy, term, fix = fn("copy_guard", "copy_len"), fn("term_guard", "name_max"), fn("fixup_guard", "name_len")
+    adj = re.search(r"Definition label_end_adjust : Z := (\d+)\.", text).group(1)
+    tri = lambda f: "".join(bit(f(a, 5)) for a in (4, 5, 6))
+    one = lambda f: "".join(bit(f(a)) for a in (-1, 0, 1))
+    return "consts %s ovf=%s ovfcmp=%s ptr=%s swap=%s idx=%s lend=%s,%s full=%s room=%s copy=%s term=%s fix=%s" % (
+        ",".join(consts[k] for k in CONST_ORDER), ovf, tri(ovfcmp), tri(ptr),
+        "".join(bit(swap(cp, cw, np_, nw)) for cp in (1, 2) for cw in (1, 2) for np_ in (1, 2) for nw in (1, 2)),
+        tri(idx), tri(lend), adj, "".join(bit(full(a, m)) for a in (4, 5, 6) for m in (0, 4, 5, 6)),
+        ",".join(str(room(5, a)) for a in (4, 5, 6)), one(copy), one(term), one(fix))
 
 
 def model_for_this_tree(chk):
@@ -644,7 +755,10 @@ def run(chk):
                 "pointers to earlier names, into the middle of names, chains, to root octets; labels 1..63; targets up to "
                 "300 octets; priority/weight ties; short non-SRV last answers), the captured packets of tests/test_resolver.c, "
                 "all their truncations and per-offset edits, field-directed single-byte edits of counts/lengths/pointers/"
-                "rdlength/type/class, self/forward/header pointers, rdlength lies, pointer chains up to depth 2000 (8000 "
+                "rdlength/type/class, self/forward/header pointers, rdlength lies, names whose labels before the final "
+                "pointer expand to 250..260 characters (256 = the target field exactly) at target/owner/question position "
+                "with pointees root / plain name / label+pointer chains of depth 1-3 and label lengths 1..20, "
+                "pointer chains up to depth 2000 (8000 "
                 "thorough), up to 400 (3000) records, random bytes with and without a valid header; non-trivial = distinct "
                 "message with QR=1, RCODE=0 and a non-zero question or answer count (the decoder enters the sections)")
     chk.assumptions = [
